@@ -163,10 +163,14 @@ impl ExtensionStore {
             .components
             .into_iter()
             .map(|complex| {
-                if complex.components.len() == 1 {
-                    Ok(complex.components.first().unwrap().as_compound().clone())
-                } else {
-                    Err((format!("Can't extend complex selector {}.", complex), span).into())
+                // a lone combinator (`selector-extend("c", "+", "d")`) is not a compound either
+                match complex.components.first() {
+                    Some(ComplexSelectorComponent::Compound(compound))
+                        if complex.components.len() == 1 =>
+                    {
+                        Ok(compound.clone())
+                    }
+                    _ => Err((format!("Can't extend complex selector {}.", complex), span).into()),
                 }
             })
             .collect::<SassResult<Vec<CompoundSelector>>>()?;
